@@ -52,7 +52,7 @@ CHECKS = {
          "model.Compat/IndexPath/IndexPrefix are the specification; plain Update judged for offered/not offered only; ambiguous re-registration histories excluded; the end-of-RPC census uses read-only reflection (availability recorded in the counters; skipped, never a violation, when unavailable); single goroutine at the match level.",
          "3/C06"),
  "C09": ("reference-model differential monitor over exhaustive + random operation histories on the real ctree.Tree",
-         "Every operation of every explored history is executed on the real tree and on a prefix-free-map model and the whole observable state (Walk, WalkSorted, wildcard queries, point lookups) plus the operation's own result is compared after every step. Exhaustive for all histories up to length 4 (5 thorough) over a 23-operation alphabet, seeded random beyond. Held = held on those executions.",
+         "Every operation of every explored history is executed on the real tree and on a prefix-free-map model and the whole observable state (Walk, WalkSorted, wildcard queries, point lookups) plus the operation's own result is compared after every step. Exhaustive for all histories up to length 4 (5 thorough) over a 24-operation alphabet (incl. a stored element literally named '*'), seeded random beyond. Held = held on those executions.",
          "model.Tree is the specification (one trailing glob may match a leaf one element above); single goroutine; GetLeaf on a branch path is not required to be nil (relied on by the cache).",
          "3/C09"),
 }
